@@ -154,6 +154,8 @@ type vfTurnTally struct {
 	sw         *vfSwitch
 	relayIP    string
 	nextPort   int
+	holdAlloc  chan struct{} // directed schedule: Allocate waits until this channel is closed (a slow TURN server)
+	inAlloc    atomic.Int32
 }
 
 type vfTurnClient struct {
@@ -176,6 +178,11 @@ func (c *vfTurnClient) Listen() error {
 func (c *vfTurnClient) Allocate() (net.PacketConn, error) {
 	if c.t.failAlloc {
 		return nil, errors.New("vfTurn: injected allocate failure")
+	}
+	if c.t.holdAlloc != nil {
+		c.t.inAlloc.Add(1)
+		<-c.t.holdAlloc
+		c.t.inAlloc.Add(-1)
 	}
 	c.t.mu.Lock()
 	c.t.nextPort++
